@@ -18,18 +18,6 @@ Proof.
   pose proof (existsb_false_forall _ _ H 10 Hc) as F. discriminate.
 Qed.
 
-Lemma te_step : forall (P : text * text -> Prop) h0 h',
-  (h' = h0 \/ (h' = h_set k_te v_chunked h0 /\ h_mem k_clen h0 = false)) ->
-  Forall P (pairs_of h0) -> P (k_te, v_chunked) ->
-  Forall P (pairs_of h') /\ (length (pairs_of h') <= S (length (pairs_of h0)))%nat.
-Proof.
-  intros P h0 h' [-> | [-> _]] H HP.
-  - split; [exact H|lia].
-  - unfold h_set. rewrite norm_te. split.
-    + apply pairs_d_set_Forall; auto. cbn [map]. constructor; auto.
-    + pose proof (pairs_d_set_len k_te [v_chunked] h0). simpl in *. lia.
-Qed.
-
 (* ---------- a CR or LF in the reason is refused (what seeded/C07_1 breaks) ---------- *)
 Lemma utf8_encode_In_ascii : forall s b c, c < 128 -> In c s -> utf8_encode s = Some b -> In c b.
 Proof.
@@ -43,35 +31,28 @@ Proof.
   - right. eapply IH; eauto.
 Qed.
 (* any character outside [\t\x20-\x7e\x80-\xff] in the reason is refused: CR, LF, NUL, ... *)
-Lemma write_headers_rejects_unsafe_reason : forall c rsn h ch,
-  In ch rsn -> valid_hchar ch = false -> exists e, write_headers c rsn h = inl e.
+Lemma write_headers_rejects_unsafe_reason : forall x c rsn h ch,
+  In ch rsn -> valid_hchar ch = false -> exists e, write_headers x c rsn h = inl e.
 Proof.
-  intros c rsn h ch Hin Hch.
-  destruct (write_headers c rsn h) as [e|[[w nz] h']] eqn:W; [eauto|].
+  intros x c rsn h ch Hin Hch.
+  destruct (write_headers x c rsn h) as [e|[[w nz] h']] eqn:W; [eauto|].
   exfalso. apply write_headers_shape in W as (start & _ & _ & _ & _ & V & _).
   eapply forallb_forall in V; eauto. congruence.
 Qed.
-Lemma pairs_d_set_other : forall k' vs (h : list (text * list text)) k v,
-  In (k, v) (pairs_of h) -> text_eqb k' k = false -> In (k, v) (pairs_of (d_set k' vs h)).
+(* ... and so is any such character in a stored header value (other than a Connection or
+   Transfer-Encoding value, which write_headers may overwrite itself) *)
+Lemma write_headers_rejects_unsafe_value : forall x c rsn h k v ch,
+  In (k, v) (pairs_of h) -> text_eqb k_te k = false -> text_eqb k_conn k = false ->
+  In ch v -> valid_hchar ch = false ->
+  exists e, write_headers x c rsn h = inl e.
 Proof.
-  intros k' vs h k v. induction h as [|[k2 v2] h IH]; intros Hin Hne; [contradiction|].
-  rewrite pairs_of_cons in Hin. cbn [d_set]. apply in_app_or in Hin.
-  destruct (text_eqb k' k2) eqn:E; rewrite pairs_of_cons; apply in_or_app.
-  - destruct Hin as [Hin|Hin]; [|right; exact Hin].
-    apply in_map_iff in Hin as (x & Ex & _). inversion Ex; subst. congruence.
-  - destruct Hin as [Hin|Hin]; [left; exact Hin|right; apply IH; auto].
-Qed.
-(* ... and so is any such character in a stored header value (other than a Transfer-Encoding value,
-   which write_headers may overwrite itself) *)
-Lemma write_headers_rejects_unsafe_value : forall c rsn h k v ch,
-  In (k, v) (pairs_of h) -> text_eqb k_te k = false -> In ch v -> valid_hchar ch = false ->
-  exists e, write_headers c rsn h = inl e.
-Proof.
-  intros c rsn h k v ch Hk Hne Hch Hbad.
-  destruct (write_headers c rsn h) as [e|[[w nz] h']] eqn:W; [eauto|].
-  exfalso. apply write_headers_shape in W as (start & _ & _ & Cl & _ & _ & Hte).
+  intros x c rsn h k v ch Hk Hne1 Hne2 Hch Hbad.
+  destruct (write_headers x c rsn h) as [e|[[w nz] h']] eqn:W; [eauto|].
+  exfalso. apply write_headers_shape in W as (start & _ & _ & Cl & _ & _ & Eh).
   assert (Hin : In (k, v) (pairs_of h')).
-  { destruct Hte as [->|[-> _]]; [exact Hk|]. unfold h_set. rewrite norm_te. apply pairs_d_set_other; auto. }
+  { rewrite Eh. apply apply_sets_other; auto. intros kv Hkv.
+    destruct (framing_sets_spec x c h) as (Inc & _). apply Inc in Hkv. unfold framing_pairs in Hkv.
+    destruct Hkv as [<-|[<-|[<-|[]]]]; cbn [fst]; rewrite ?norm_conn, ?norm_te; auto. }
   cbn [forallb] in Cl. apply andb_true_iff in Cl as [_ Cl].
   eapply forallb_forall in Cl; [|apply in_map; exact Hin].
   rewrite header_line_eq in Cl. unfold clean_line in Cl.
@@ -117,8 +98,8 @@ Proof.
         cbn [raw_lines hop_line app]. repeat split; auto. simpl. congruence.
 Qed.
 
-Theorem raw_block_exact : forall c rsn hs rs fin w,
-  run_raw c rsn hs = (rs, fin, w) ->
+Theorem raw_block_exact : forall x c rsn hs rs fin w,
+  run_raw x c rsn hs = (rs, fin, w) ->
   length rs = length hs /\ (fin = Ok \/ w = []) /\
   (w <> [] ->
    exists start hls,
@@ -126,20 +107,23 @@ Theorem raw_block_exact : forall c rsn hs rs fin w,
      w = join CRLF (start :: hls) ++ CRLF ++ CRLF /\
      strict_parse w = Some (start, hls) /\
      forallb well_formed_header hls = true /\
-     Forall (fun l => In l (header_line (k_te, v_chunked) :: raw_lines hs rs)) hls /\
-     (length hls <= 1 + length (raw_lines hs rs))%nat).
+     Forall (fun l => In l (header_line (k_te, v_chunked) :: conn_lines ++ raw_lines hs rs)) hls /\
+     (length hls <= 2 + length (raw_lines hs rs))%nat).
 Proof.
-  intros c rsn hs rs fin w H. unfold run_raw in H.
+  intros x c rsn hs rs fin w H. unfold run_raw in H.
   destruct (build hs []) as [rs0 h] eqn:B.
   destruct (build_prov hs [] rs0 h [] B (Forall_nil _)) as (P1 & P2 & P3). cbn [app] in P1.
-  destruct (write_headers c rsn h) as [e|[[w0 nz] h']] eqn:W; inversion H; subst rs fin w; clear H.
+  destruct (write_headers x c rsn h) as [e|[[w0 nz] h']] eqn:W; inversion H; subst rs fin w; clear H.
   { repeat split; auto. intro X; contradiction. }
   split; [exact P3|]. split; [left; reflexivity|]. intros _.
-  apply write_headers_shape in W as (start & Hs & Ew & Cl & Wf & _ & Hte).
-  destruct (te_step (fun kv => In (header_line kv) (header_line (k_te, v_chunked) :: raw_lines hs rs0)) h h' Hte)
-    as [Q1 Q2].
-  { eapply Forall_impl; [|exact P1]. intros kv Hk. right. exact Hk. }
+  apply write_headers_shape in W as (start & Hs & Ew & Cl & Wf & _ & Eh).
+  destruct (framing_step (fun kv => In (header_line kv) (header_line (k_te, v_chunked) :: conn_lines ++ raw_lines hs rs0)) x c h)
+    as (Q1 & Q2 & _).
+  { eapply Forall_impl; [|exact P1]. intros kv Hk. right. apply in_or_app. right. exact Hk. }
+  { right. apply in_or_app. left. left. reflexivity. }
+  { right. apply in_or_app. left. right. left. reflexivity. }
   { left. reflexivity. }
+  rewrite <- Eh in *.
   exists start, (map header_line (pairs_of h')). rewrite join_block.
   split; [exact Hs|]. split; [exact Ew|]. split; [rewrite Ew; apply strict_parse_block; exact Cl|].
   split; [exact Wf|]. split.
@@ -191,8 +175,8 @@ Proof.
     intros x Hx; simpl in Hx; simpl; tauto.
 Qed.
 
-Theorem wsgi_block_exact : forall env status hs w,
-  run_wsgi (fst env) status hs = w -> w <> [] ->
+Theorem wsgi_block_exact : forall env x status hs w,
+  run_wsgi x (fst env) status hs = w -> w <> [] ->
   exists cs rsn c start hls,
     split_sp status = Some (cs, rsn) /\ py_int cs = Some c /\
     status_line c rsn = Some start /\
@@ -200,9 +184,9 @@ Theorem wsgi_block_exact : forall env status hs w,
     strict_parse w = Some (start, hls) /\
     forallb well_formed_header hls = true /\
     Forall (fun l => In l (wsgi_consts env ++ map pair_line hs)) hls /\
-    (length hls <= 4 + length hs)%nat.
+    (length hls <= 5 + length hs)%nat.
 Proof.
-  intros env status hs w H Hne. unfold run_wsgi in H.
+  intros env x status hs w H Hne. unfold run_wsgi in H.
   destruct (split_sp status) as [[cs rsn]|] eqn:Sp; [|congruence].
   destruct (py_int cs) as [c|] eqn:Pi; [|congruence].
   set (allowed := wsgi_consts env ++ map pair_line hs).
@@ -217,10 +201,15 @@ Proof.
       + rewrite norm_clen. right; left; reflexivity.
       + rewrite norm_ctype. right; right; left; reflexivity.
       + rewrite norm_server. right; right; right; left; reflexivity. }
-  destruct (write_headers c rsn h) as [e|[[w0 nz] h']] eqn:W; [congruence|]. subst w0.
-  apply write_headers_shape in W as (start & Hs & Ew & Cl & Wf & _ & Hte).
-  destruct (te_step (WP allowed) h h' Hte A1) as [Q1 Q2].
-  { split; [|vm_compute; reflexivity]. unfold allowed, wsgi_consts. left. reflexivity. }
+  destruct (write_headers x c rsn h) as [e|[[w0 nz] h']] eqn:W; [congruence|]. subst w0.
+  apply write_headers_shape in W as (start & Hs & Ew & Cl & Wf & _ & Eh).
+  assert (CI : forall l, In l (wsgi_consts env) -> In l allowed).
+  { intros l Hl. unfold allowed. apply in_or_app. left. exact Hl. }
+  destruct (framing_step (WP allowed) x c h A1) as (Q1 & Q2 & _).
+  { split; [|vm_compute; reflexivity]. apply CI. unfold wsgi_consts, conn_lines. simpl. tauto. }
+  { split; [|vm_compute; reflexivity]. apply CI. unfold wsgi_consts, conn_lines. simpl. tauto. }
+  { split; [|vm_compute; reflexivity]. apply CI. unfold wsgi_consts, conn_lines. simpl. tauto. }
+  rewrite <- Eh in *.
   exists cs, rsn, c, start, (map header_line (pairs_of h')). rewrite join_block.
   split; [auto|]. split; [auto|]. split; [exact Hs|]. split; [exact Ew|].
   split; [rewrite Ew; apply strict_parse_block; exact Cl|]. split; [exact Wf|]. split.
@@ -244,27 +233,27 @@ Proof.
   rewrite X. cbn [andb]. apply Nat.leb_le. exact Hl.
 Qed.
 
-Theorem check_raw : forall env c rsn hs,
-  check_case (env, Raw c rsn hs) (run_case (env, Raw c rsn hs)) = true.
+Theorem check_raw : forall env x c rsn hs,
+  check_case (env, x, Raw c rsn hs) (run_case (env, x, Raw c rsn hs)) = true.
 Proof.
-  intros env c rsn hs. unfold check_case, check_gen, run_case.
-  destruct (run_raw c rsn hs) as [[rs fin] w] eqn:E.
+  intros env x c rsn hs. unfold check_case, check_gen, run_case.
+  destruct (run_raw x c rsn hs) as [[rs fin] w] eqn:E.
   rewrite sequence_res.
-  destruct (raw_block_exact _ _ _ _ _ _ E) as (L & _ & Hw). rewrite L, Nat.eqb_refl. cbn [andb].
+  destruct (raw_block_exact _ _ _ _ _ _ _ E) as (L & _ & Hw). rewrite L, Nat.eqb_refl. cbn [andb].
   destruct w as [|b w'] eqn:Ew; [reflexivity|]. rewrite <- Ew in *.
   destruct Hw as (start & hls & Hs & _ & Hp & Wf & Hin & Hl); [subst w; discriminate|].
   eapply lines_ok_intro; eauto.
 Qed.
 
-Theorem check_wsgi : forall env status hs,
-  check_case (env, Wsgi status hs) (run_case (env, Wsgi status hs)) = true.
+Theorem check_wsgi : forall env x status hs,
+  check_case (env, x, Wsgi status hs) (run_case (env, x, Wsgi status hs)) = true.
 Proof.
-  intros env status hs. unfold check_case, check_gen, run_case.
+  intros env x status hs. unfold check_case, check_gen, run_case.
   cbn [map sequence_o].
-  match goal with |- context [run_wsgi ?a ?b ?c] => remember (run_wsgi a b c) as w eqn:E end. symmetry in E.
+  match goal with |- context [run_wsgi ?a ?b ?c ?d] => remember (run_wsgi a b c d) as w eqn:E end. symmetry in E.
   destruct w as [|b w'] eqn:Ew; [reflexivity|]. rewrite <- Ew in *.
   assert (Hne : w <> []) by (subst w; discriminate).
-  destruct (wsgi_block_exact env status hs w E Hne)
+  destruct (wsgi_block_exact env x status hs w E Hne)
     as (cs & rsn & c & start & hls & Sp & Pi & Hs & _ & Hp & Wf & Hin & Hl).
   rewrite Sp, Pi. eapply lines_ok_intro; eauto.
 Qed.
